@@ -4,6 +4,7 @@ import (
 	"bytes"
 	"fmt"
 	"iter"
+	"slices"
 	"sort"
 	"strings"
 
@@ -38,6 +39,19 @@ func diffVerdict(clause, key string, ref []fmts.Item, out sim.Outcome[fmts.Item]
 		return &Verdict{Clause: clause, Key: clause + "/" + key,
 			Detail:   fmt.Sprintf("item sequences differ at index %d (reference has %d items, observed %d)", i, len(ref), len(out.Items)),
 			Expected: fmts.Strings(ref), Observed: fmts.Strings(out.Items)}
+	}
+	// The records as a consumer that KEPT them holds them after the iteration: they
+	// too must not depend on the delivery. Differential like everything here: a
+	// library that reused record memory in the same way under every delivery would
+	// pass; one whose kept records change with the read sizes does not.
+	if lr, lo := fmts.LateKeys(ref), fmts.LateKeys(out.Items); !slices.Equal(lr, lo) {
+		i := 0
+		for i < len(lr) && i < len(lo) && lr[i] == lo[i] {
+			i++
+		}
+		return &Verdict{Clause: clause + ".retained", Key: clause + ".retained/" + key,
+			Detail:   fmt.Sprintf("the yielded sequences were equal, but the records a consumer kept differ after the iteration, first at index %d (record memory is shared with the decoder)", i),
+			Expected: lr, Observed: lo}
 	}
 	return nil
 }
